@@ -565,10 +565,14 @@ func main() {
 		}{kind, acctSpec{variant, sc, pw, lb}})
 	}
 	if r.Thorough() {
-		for _, kind := range []string{"default", "lowsec"} {
-			for _, v := range []string{"create", "import-ext", "import-meta"} {
-				for _, sc := range sch {
-					for _, pw := range passwords {
+		// ordered so that a deadline-capped run is still broad: every wallet mixes the three paths (rotating which
+		// one gets the ChangePassword / UnLock sequence) and the two wallet kinds alternate in the work list.
+		vs := []string{"create", "import-ext", "import-meta"}
+		for si, sc := range sch {
+			for pi, pw := range passwords {
+				for _, kind := range []string{"default", "lowsec"} {
+					for k := 0; k < 3; k++ {
+						v := vs[(k+si+pi)%3]
 						if kind == "lowsec" && v == "create" && !(sc.curve == keypair.P256 && sc.sig == s.SHA256withECDSA) {
 							continue // one scheme is enough to exhibit / watch the create-in-lowsec case
 						}
@@ -604,13 +608,13 @@ func main() {
 	for _, sc := range []scheme{sch[1], sch[len(sch)-2], sch[len(sch)-1]} {
 		add("lowsec", "legacy-ctr", sc, passwords[1])
 	}
-	// wallets of three accounts of one kind
-	var wallets []walletSpec
+	// wallets of three accounts of one kind; the two kinds alternate in the work list
+	perKind := map[string][]walletSpec{}
 	for _, kind := range []string{"default", "lowsec"} {
 		var cur []acctSpec
 		flush := func() {
 			if len(cur) > 0 {
-				wallets = append(wallets, walletSpec{id: len(wallets), kind: kind, accts: cur})
+				perKind[kind] = append(perKind[kind], walletSpec{kind: kind, accts: cur})
 				cur = nil
 			}
 		}
@@ -624,6 +628,16 @@ func main() {
 			}
 		}
 		flush()
+	}
+	var wallets []walletSpec
+	for i := 0; i < len(perKind["default"]) || i < len(perKind["lowsec"]); i++ {
+		for _, kind := range []string{"default", "lowsec"} {
+			if i < len(perKind[kind]) {
+				ws := perKind[kind][i]
+				ws.id = len(wallets)
+				wallets = append(wallets, ws)
+			}
+		}
 	}
 	var wg sync.WaitGroup
 	ch := make(chan walletSpec)
@@ -640,7 +654,6 @@ func main() {
 			}
 		}()
 	}
-	// expensive (default-parameter) wallets first so that the pool stays busy
 	for _, ws := range wallets {
 		ch <- ws
 	}
